@@ -169,6 +169,34 @@ def run(chk, repo, pid):
                         found.append(('zip after one-sided filter', c_.lineno, unparse(c_)[:80],
                                       f'`{hit[0]}` was filtered ({unparse(filtered[hit[0]].value)[:50]}) but {others} were not: the '
                                       f'tuples pair an element with the companion of another position'))
+        # a position found in a filtered copy used to subscript another sequence
+        filt = {}
+        for a_ in ast.walk(f.node):
+            if isinstance(a_, ast.Assign) and len(a_.targets) == 1 and isinstance(a_.targets[0], ast.Name) \
+                    and isinstance(a_.value, (ast.ListComp, ast.GeneratorExp)) and len(a_.value.generators) == 1 \
+                    and a_.value.generators[0].ifs and isinstance(a_.value.generators[0].iter, ast.Name) \
+                    and a_.value.generators[0].iter.id != a_.targets[0].id:
+                filt[a_.targets[0].id] = a_.value.generators[0].iter.id
+        if filt:
+            pos = {}
+            for a_ in ast.walk(f.node):
+                if isinstance(a_, ast.Assign) and len(a_.targets) == 1 and isinstance(a_.targets[0], ast.Name):
+                    for c_ in ast.walk(a_.value):
+                        if isinstance(c_, ast.Call) and ((dotted(c_.func) or '').split('.')[-1] in (
+                                'argmin', 'argmax', 'nanargmin', 'nanargmax') and c_.args and isinstance(c_.args[0], ast.Name)
+                                and c_.args[0].id in filt):
+                            pos[a_.targets[0].id] = c_.args[0].id
+                        if isinstance(c_, ast.Call) and isinstance(c_.func, ast.Attribute) and c_.func.attr == 'index' \
+                                and isinstance(c_.func.value, ast.Name) and c_.func.value.id in filt:
+                            pos[a_.targets[0].id] = c_.func.value.id
+            for sub in ast.walk(f.node):
+                if isinstance(sub, ast.Subscript) and isinstance(sub.slice, ast.Name) and sub.slice.id in pos:
+                    base = [x.id for x in ast.walk(sub.value) if isinstance(x, ast.Name)]
+                    if base and pos[sub.slice.id] not in base:
+                        found.append(('position from a filtered copy', sub.lineno, unparse(sub)[:60],
+                                      f'`{sub.slice.id}` is a position in `{pos[sub.slice.id]}` (a filtered copy of '
+                                      f'`{filt[pos[sub.slice.id]]}`); it is used to subscript another sequence: every element '
+                                      f'dropped by the filter shifts it'))
         # memoisation that cannot be right: a cache on a generator function hands the same (exhausted) generator to every later
         # caller; a cache keyed by a Model merges models that compare equal but differ in what __eq__ ignores (name, dataset)
         decos = [(dotted(d.func) if isinstance(d, ast.Call) else dotted(d)) or '' for d in getattr(f.node, 'decorator_list', [])]
@@ -199,4 +227,4 @@ def run(chk, repo, pid):
                 chk.violation(Y0, f.module.rel, f.qualname, f'loop-carried flag `{v}`',
                               'tested and cleared in an inner loop, initialised outside the outer loop', line=M.lineno,
                               advisory=True)
-    chk.instance(Y0, f'{nfun} functions of {len(mods)} anchored modules scanned for 17 defect shapes', n=nfun)
+    chk.instance(Y0, f'{nfun} functions of {len(mods)} anchored modules scanned for 18 defect shapes', n=nfun)
